@@ -1,3 +1,199 @@
-(* placeholder *)
+(* Props/C14.v — property C14: user features act on exactly their cluster range with their value.
+   Only statements, each closed by `exact`, with Print Assumptions beneath. The model is Model/Feature.v
+   (Feature::new, Feature::from_str, set_masks, mask-bit allocation, alternate index); the constants
+   (first feature bit 4, global bit 31, MAX_BITS 8, MAX_VALUE 255, glyph flag bits 0x7) are regenerated
+   from /repo/src into Gen/FeatureConsts.v on every run.
+   Clusters are u32 values below u32::MAX: u32::MAX is the range encoding's "to the end" sentinel
+   (set_masks tests `cluster < end`), only the global range reaches a glyph with that cluster value. *)
 From Coq Require Import List NArith Bool.
-From RB Require Import Gen.FeatureConsts Model.Feature.
+From RB Require Import Gen.FeatureConsts Model.Feature Proofs.FeatureP.
+Import ListNotations.
+Local Open Scope N_scope.
+
+(* the constants the theorems below speak about are the ones in the current source *)
+Theorem C14_constants :
+  feat_first_bit = 4 /\ feat_global_bit = 31 /\ feat_max_bits = 8 /\ feat_max_value = 255 /\
+  glyph_flag_defined = 7 /\ feat_global_start = 0 /\ feat_global_end = U32MAX.
+Proof. exact (conj eq_refl (conj eq_refl (conj eq_refl (conj eq_refl (conj eq_refl (conj eq_refl eq_refl)))))). Qed.
+Print Assumptions C14_constants.
+
+(* ---------------------------------------------------------------- Feature::new *)
+
+(* FULL STATEMENT (refuted below): forall r c, covers (feature_new t v r) c = true <-> In_range r c.
+   It holds for the forms without a bounded end ... *)
+Theorem C14_new_covers_outside_known : forall t v r c,
+  bounded_end r = false -> c < U32MAX \/ r = RFull ->
+  (covers (feature_new t v r) c = true <-> In_range r c).
+Proof. exact new_covers_outside_known. Qed.
+Print Assumptions C14_new_covers_outside_known.
+
+(* ... and for a bounded end (a..b, a..=b, ..b, ..=b) the feature acts on c iff c AND c+1 are in the
+   range: exactly the last cluster of the range is left out (known class feature_new_end_bound) *)
+Theorem C14_new_bounded_end_characterised : forall t v r c,
+  bounded_end r = true -> c < U32MAX ->
+  (covers (feature_new t v r) c = true <-> In_range r c /\ In_range r (c + 1)).
+Proof. exact new_bounded_characterised. Qed.
+Print Assumptions C14_new_bounded_end_characterised.
+
+Lemma C14_new_refuted :
+  exists r c, bounded_end r = true /\ c < U32MAX /\ ~ (covers (feature_new 0 1 r) c = true <-> In_range r c).
+Proof. exact new_refuted_prop. Qed.
+Print Assumptions C14_new_refuted.
+
+(* ---------------------------------------------------------------- set_masks *)
+
+(* exactly the glyphs whose cluster the range covers receive `value` in the bits of `mask`; every other
+   bit of every glyph, and every cluster, is unchanged; the list keeps its length (Forall2) *)
+Theorem C14_set_masks : forall value mask cs ce l,
+  mask < 2 ^ 32 -> Forall (fun g => snd g < 2 ^ 32) l ->
+  Forall2 (set_masks_post value mask cs ce) l (set_masks value mask cs ce l).
+Proof. exact set_masks_exact. Qed.
+Print Assumptions C14_set_masks.
+
+(* with the feature's own field (w bits at shift s) and `value << shift` as setup_masks passes it: a covered
+   glyph ends with the field holding v and all bits outside the field as before; others are untouched *)
+Theorem C14_set_masks_field : forall s w v cs ce g,
+  1 <= w -> s + w <= 32 -> v < 2 ^ w -> snd g < 2 ^ 32 ->
+  let g' := set_one (shl32 v s) (field_mask s w) cs ce g in
+  if covers_se cs ce (fst g)
+  then fst g' = fst g /\ N.land (snd g') (field_mask s w) = N.shiftl v s /\
+       N.ldiff (snd g') (field_mask s w) = N.ldiff (snd g) (field_mask s w)
+  else g' = g.
+Proof. exact set_one_field. Qed.
+Print Assumptions C14_set_masks_field.
+
+Theorem C14_set_masks_is_pointwise : forall value mask cs ce l,
+  set_masks value mask cs ce l = map (set_one value mask cs ce) l.
+Proof. exact set_masks_map. Qed.
+Print Assumptions C14_set_masks_is_pointwise.
+
+(* ---------------------------------------------------------------- allocation of mask bits *)
+
+(* for EVERY list of feature infos: each compiled feature either rides on the global bit (31) or owns a
+   field of 1..8 bits inside bits 4..29; fields are pairwise disjoint (all global-bit features share bit 31) *)
+Theorem C14_alloc : forall infos,
+  let fs := fst (fst (alloc infos feat_first_bit GLOBAL_BIT_MASK)) in
+  Forall (field_within feat_first_bit (feat_global_bit - 1)) fs /\ ForallOrdPairs masks_compatible fs.
+Proof. exact alloc_fields_ok. Qed.
+Print Assumptions C14_alloc.
+
+(* the same through compile (merge of duplicates, then allocation, sorted by tag when `simple`): fields are
+   clear of the glyph-flag bits 0..2 and of the global bit *)
+Theorem C14_compile_fields : forall simple infos f,
+  In f (fst (compile_map simple infos)) ->
+  field_within feat_first_bit (feat_global_bit - 1) f /\
+  N.land (m_mask f) glyph_flag_defined = 0 /\
+  (is_global_map f \/ N.land (m_mask f) GLOBAL_BIT_MASK = 0).
+Proof. exact compile_fields. Qed.
+Print Assumptions C14_compile_fields.
+
+Theorem C14_compile_pairwise : forall infos,
+  ForallOrdPairs masks_compatible (fst (compile_map false infos)).
+Proof. exact compile_pairwise. Qed.
+Print Assumptions C14_compile_pairwise.
+
+(* every compiled field is wide enough for every value up to min(max_value, 255) of its merged info:
+   `value << shift` lies inside the mask and reads back as the alternate index *)
+Theorem C14_alloc_width : forall simple infos f,
+  In f (fst (compile_map simple infos)) ->
+  exists i, In i (dedup_infos simple infos) /\ m_tag f = fi_tag i /\
+            (uses_global_bit i = true /\ is_global_map f \/
+             uses_global_bit i = false /\ m_mask f = field_mask (m_shift f) (bits_needed i) /\
+             1 <= bits_needed i /\ m_shift f + bits_needed i <= 32 /\
+             forall v, v <= fi_max i -> v <= feat_max_value ->
+                       v < 2 ^ bits_needed i /\
+                       N.land (shl32 v (m_shift f)) (m_mask f) = N.shiftl v (m_shift f) /\
+                       alt_index (shl32 v (m_shift f)) (m_mask f) = v).
+Proof. exact compile_width. Qed.
+Print Assumptions C14_alloc_width.
+
+(* nothing is dropped while bits are left: a feature that is enabled, present (or has a fallback) and fits
+   below the global bit is compiled; conversely (C14_alloc) one that does not fit never overlaps *)
+Theorem C14_alloc_keeps_when_room : forall i t nb gm,
+  fi_max i <> 0 -> nb + bits_needed i < feat_global_bit ->
+  fi_found i = true \/ has_flag (fi_flags i) ff_has_fallback = true ->
+  exists f r, fst (fst (alloc (i :: t) nb gm)) = f :: r /\ m_tag f = fi_tag i.
+Proof. exact alloc_keeps_when_room. Qed.
+Print Assumptions C14_alloc_keeps_when_room.
+
+(* ---------------------------------------------------------------- value: lookup on/off, k-th alternate *)
+
+(* a glyph covered by the range carries the value: value 0 => the lookup mask test fails (feature off
+   there), value k => alternate index k => the k-th alternate (none beyond the set); a glyph outside the
+   range is untouched *)
+Theorem C14_value : forall s w v cs ce g alts rnd,
+  1 <= w -> w <= feat_max_bits -> s + w <= 32 -> v < 2 ^ w -> snd g < 2 ^ 32 -> alts <> [] ->
+  let fm := field_mask s w in
+  let g' := set_one (shl32 v s) fm cs ce g in
+  if covers_se cs ce (fst g)
+  then alt_index (snd g') fm = v /\
+       lookup_applies (snd g') fm = negb (v =? 0) /\
+       alternate_apply alts (snd g') fm false rnd = (if v =? 0 then None else nth_error alts (N.to_nat (v - 1)))
+  else g' = g.
+Proof. exact value_on_glyph. Qed.
+Print Assumptions C14_value.
+
+(* ---------------------------------------------------------------- Feature::from_str *)
+
+(* PARTIAL: round trip for the canonical printer `tag[start:end]=value` (end omitted when u32::MAX) over
+   tags of 4 characters [A-Za-z0-9_] and numbers below 2^31.
+   FULL STATEMENT (not proved): from_str maps every string of the HarfBuzz feature grammar to its meaning;
+   the grammar's sugar forms are covered by the Examples below and by the correspondence/search. *)
+Theorem C14_parse_print_partial : forall t0 t1 t2 t3 f,
+  printable t0 t1 t2 t3 f -> parse_feature (print_feature f) = Some f.
+Proof. exact parse_print. Qed.
+Print Assumptions C14_parse_print_partial.
+
+(* known class from_str_index_i32: an index >= 2^31 is not read back; the feature becomes global *)
+Lemma C14_parse_index_refuted :
+  exists f, f_start f = 3000000000 /\ f_end f = 3000000001 /\
+            parse_feature (print_feature f) = Some (mkFeature (f_tag f) (f_value f) 0 U32MAX).
+Proof. exact parse_index_refuted. Qed.
+Print Assumptions C14_parse_index_refuted.
+
+(* ---------------------------------------------------------------- non-vacuity and documented forms *)
+
+Definition bytes_kern : list N := [107; 101; 114; 110].
+Definition kern : N := 1801810542.
+
+(* "kern[3:5]" = clusters {3,4}; "kern[3]" = {3}; "kern[:5]", "kern[3:]", "-kern", "kern=off", "aalt[3:5]=2" *)
+Example C14_syntax_examples :
+  parse_feature (bytes_kern ++ [91; 51; 58; 53; 93]) = Some (mkFeature kern 1 3 5) /\
+  parse_feature (bytes_kern ++ [91; 51; 93]) = Some (mkFeature kern 1 3 4) /\
+  parse_feature (bytes_kern ++ [91; 58; 53; 93]) = Some (mkFeature kern 1 0 5) /\
+  parse_feature (bytes_kern ++ [91; 51; 58; 93]) = Some (mkFeature kern 1 3 U32MAX) /\
+  parse_feature (45 :: bytes_kern) = Some (mkFeature kern 0 0 U32MAX) /\
+  parse_feature (bytes_kern ++ [61; 111; 102; 102]) = Some (mkFeature kern 0 0 U32MAX) /\
+  parse_feature ([97; 97; 108; 116; 91; 51; 58; 53; 93; 61; 50]) = Some (mkFeature 1633774708 2 3 5) /\
+  map (covers (mkFeature kern 1 3 5)) [2; 3; 4; 5] = [false; true; true; false].
+Proof. vm_compute. repeat split; reflexivity. Qed.
+
+(* Feature::new today: 0..1 -> [0,0), 0..=1 -> [0,1), 2.. -> [2,MAX), .. -> global *)
+Example C14_new_examples :
+  (f_start (feature_new 0 1 (RHalf 0 1)), f_end (feature_new 0 1 (RHalf 0 1))) = (0, 0) /\
+  (f_start (feature_new 0 1 (RIncl 0 1)), f_end (feature_new 0 1 (RIncl 0 1))) = (0, 1) /\
+  (f_start (feature_new 0 1 (RFrom 2)), f_end (feature_new 0 1 (RFrom 2))) = (2, U32MAX) /\
+  covers (feature_new 0 1 RFull) U32MAX = true /\
+  covers (feature_new 0 1 (RFrom 2)) U32MAX = false.
+Proof. vm_compute. repeat split; reflexivity. Qed.
+
+(* allocation: a ranged 'salt'=5 next to a ranged 'ss01'=1 and the default global 'liga'; and exhaustion:
+   of 30 one-bit features only 26 get a field (bits 4..29), the rest are dropped, none overlaps *)
+Definition ex_info (tag maxv flags dflt : N) : finfo := mkInfo tag 0 maxv flags dflt true.
+Example C14_alloc_examples :
+  map (fun f => (m_shift f, m_mask f))
+      (fst (compile_map false [ex_info 30 1 1 1; ex_info 20 5 0 0; ex_info 10 1 0 0]))
+    = [(4, 16); (5, 224); (31, 2147483648)] /\
+  length (fst (compile_map false (map (fun t => ex_info t 1 0 0) (map N.of_nat (seq 1 30))))) = 26%nat /\
+  length (fst (compile_map false (map (fun t => ex_info t 255 0 0) (map N.of_nat (seq 1 30))))) = 3%nat.
+Proof. vm_compute. repeat split; reflexivity. Qed.
+
+(* set_masks + alternate index on a concrete buffer: value 3 on clusters [1,3) of a 3-bit field at bit 5 *)
+Example C14_value_example :
+  map (fun g => alt_index (snd g) (field_mask 5 3))
+      (set_masks (shl32 3 5) (field_mask 5 3) 1 3 [(0, 2147483648); (1, 2147483648); (2, 2147483679); (3, 0)])
+    = [0; 3; 3; 0] /\
+  alternate_apply [100; 101; 102] (N.shiftl 3 5) (field_mask 5 3) false 0 = Some 102 /\
+  alternate_apply [100; 101; 102] (N.shiftl 4 5) (field_mask 5 3) false 0 = None /\
+  lookup_applies 2147483648 (field_mask 5 3) = false.
+Proof. vm_compute. repeat split; reflexivity. Qed.
